@@ -41,6 +41,11 @@ pub struct Run {
     /// cache keeps nothing of it. The history goes on.
     #[serde(default)]
     pub kill_seed: Option<u64>,
+    /// This run happens in the same long-lived process as the previous one (the web application:
+    /// one page, several recalculations, each with a loader of its own): statics and thread-locals
+    /// of the previous run are still there. Ignored after a killed run.
+    #[serde(default)]
+    pub same_process: bool,
 }
 
 #[derive(Clone, Debug, Serialize, Deserialize, PartialEq)]
@@ -219,6 +224,8 @@ pub fn generate(seed: u64, index: u64) -> Sc {
             fs_faults,
             hash_seed: r.next_u64(),
             kill_seed: if faulty && r.chance(1, 8) { Some(r.next_u64()) } else { None },
+            // (its own stream: the rest of the history is what it was before this knob existed)
+            same_process: i > 0 && Rng::new(crate::prng::mix(seed, 0x5E55, i as u64)).chance(1, 4),
         });
     }
     Sc { cal, format, cache, max_write: *r.pick(&[usize::MAX, usize::MAX, 4096, 512, 7]), max_read: *r.pick(&[usize::MAX, usize::MAX, 4096, 512, 7]), faulty, runs, eintr_every: 0, clock_tz: if r.chance(1, 4) { Some(*r.pick(&[5i8, 8, 12, -1, -9, -13])) } else { None }, cache_dir_link: Rng::new(crate::prng::mix(seed, 0x11CC, 13)).chance(1, 8) }
@@ -291,7 +298,31 @@ impl Engine for C13 {
         // year -> (today, published_today) of the latest successful download of that year by a run
         // whose cache write was not disturbed by an injected file-system error
         let mut downloaded_on: BTreeMap<i32, (Date, bool)> = BTreeMap::new();
+        crate::proc::end_session();
+        struct SessionGuard;
+        impl Drop for SessionGuard {
+            fn drop(&mut self) {
+                crate::proc::end_session();
+            }
+        }
+        let _session_guard = SessionGuard;
+        let mut session_start = 0usize;
+        let mut prev_killed = false;
         for (ri, run) in sc.runs.iter().enumerate() {
+            // which long-lived process (if any) this run belongs to
+            let continues = ri > 0 && run.same_process && !prev_killed;
+            if !continues {
+                session_start = ri;
+            }
+            let next_continues = sc.runs.get(ri + 1).map(|n| n.same_process).unwrap_or(false) && run.kill_seed.is_none();
+            let session = if continues || next_continues { Some(crate::prng::mix(sc.runs[0].hash_seed, session_start as u64, 0x5E55) >> 1) } else { None };
+            if continues {
+                st.bump("probe.run_in_the_same_long_lived_process_as_the_previous_one");
+                if pd(&sc.runs[ri - 1].today) == pd(&run.today) && !sc.runs[ri - 1].published_today && run.published_today {
+                    st.bump("probe.same_process_same_day_and_the_days_rate_was_published_in_between");
+                }
+            }
+            prev_killed = false;
             let today = pd(&run.today);
             let pt = run.published_today;
             let mut lookups: Vec<Date> = run.lookups.iter().map(|s| pd(s)).collect();
@@ -408,6 +439,7 @@ impl Engine for C13 {
                     server_today: None,
                     clock_tz: sc.clock_tz,
                     now_shift,
+                    session: Some(u64::MAX),
                     fs_faults: dry_faults,
                     knobs: Knobs { max_write: sc.max_write, max_read: sc.max_read, eintr_every: sc.eintr_every },
                     hash_seed: run.hash_seed,
@@ -438,6 +470,7 @@ impl Engine for C13 {
                 server_today: None,
                 clock_tz: sc.clock_tz,
                 now_shift,
+                session,
                 fs_faults: fs_faults.clone(),
                 knobs: Knobs { max_write: sc.max_write, max_read: sc.max_read, eintr_every: sc.eintr_every },
                 hash_seed: run.hash_seed,
@@ -462,6 +495,7 @@ impl Engine for C13 {
                 after_kill_dates = crate::c14::tail_dates(&survived);
                 crate::interpose::with_world(|w| w.fs.disk = survived);
                 killed = true;
+                prev_killed = true;
                 st.bump("fault.run_killed_mid_history");
                 if j.iter().any(|o| matches!(o, crate::simfs::Op::Write { .. })) {
                     st.bump("fault.run_killed_while_it_wrote_the_cache");
